@@ -1,4 +1,4 @@
-/- line-protocol glue for the Counter model (parsing / printing only) -/
+-- driver-prefix: counter
 import EdzedModel.Counter
 
 namespace Edzed.Counter
